@@ -565,6 +565,17 @@ fn run_succ_q(synthetic: bool, q: u64, a: &[String]) -> String {
             }
         }
         "oldlong" => op.push(atom(5)),
+        // oldpad / newpad <k>: k surplus digests appended to the old / new peak list (structurally inconsistent for k > 0)
+        "oldpad" => {
+            for _ in 0..arg.parse::<usize>().unwrap() {
+                op.push(atom(5));
+            }
+        }
+        "newpad" => {
+            for _ in 0..arg.parse::<usize>().unwrap() {
+                np.push(atom(5));
+            }
+        }
         "oldshort" => {
             op.pop();
         }
